@@ -13,7 +13,16 @@ database answers `has_storage` faithfully (`HsFaithful`) — true of the underly
 and of the forwarding wrappers, FALSE of `CacheDB`, `State`, `DatabaseComponents` (C20, situation
 1), for which creation proceeds over existing storage (`…_counterexample`, witnessed on real create
 transactions, CREATE and CREATE2 by the correspondence stream). EOF creation is covered by the
-model (same function) but not exercised by the harness. -/
+model (same function) but not exercised by the harness.
+
+Warmth. `make_create_frame` drops the `is_cold` of `load_account` and asks `db.has_storage`
+unconditionally; `makeCreateFrameJ` / `makeCreateFrameW` model the step on the journal's entry for
+the target (absent; pre-loaded by the access list with or without storage keys; loaded by BALANCE /
+EXTCODESIZE; loaded and touched by a CALL; left warm by an earlier failed CREATE2 with the same
+salt; left cold by a reverted sub-call). `collision_independent_of_warmth`: result and gas lost are
+the same for every way of becoming warm, `collision_reads_only_info_and_has_storage`: the entry's
+`cold` flag, its loaded slots and `warm_preloaded_addresses` are never read. The correspondence
+stream runs the real EVM with the target made warm in each of these ways. -/
 namespace Revm.Props.C21
 open Revm Revm.Model.Db Revm.Model.Collision Revm.Proofs.Collision
 
@@ -46,6 +55,58 @@ theorem has_storage_faithful_layers (b : Base) (hb : HonestBase b) (a : Addr) :
     HsFaithful (.fwd (.fwd (.base b))) a :=
   ⟨faithful_base b hb a, faithful_wrapRef_base b hb a, faithful_fwd _ a (faithful_base b hb a),
    faithful_fwd _ a (faithful_fwd _ a (faithful_base b hb a))⟩
+
+/-! ## the decision does not depend on how (or whether) the target is already warm -/
+
+/-- For every database stack, address, value, gas limit and fork, and every way `w` in which the
+target can have entered the journal before the creation reaches it (first touch; tx access list with
+any list of storage keys; BALANCE / EXTCODESIZE; a CALL that touched it; an earlier failed CREATE2
+with the same salt; a reverted sub-call that left it cold in the map): the result (collision /
+overflow / frame) and the gas taken from the creator are those of the cold first touch, and a
+collision leaves the target exactly as the journal had it. -/
+theorem collision_independent_of_warmth (db : Db) (a : Addr) (w : Warmth) (value gasLimit : Nat) (sd : Bool) :
+    (makeCreateFrameW db a w value gasLimit sd).result = (makeCreateFrameW db a .coldFirstTouch value gasLimit sd).result ∧
+    (makeCreateFrameW db a w value gasLimit sd).gasLost = (makeCreateFrameW db a .coldFirstTouch value gasLimit sd).gasLost ∧
+    ((makeCreateFrameW db a w value gasLimit sd).result = .collision →
+      (makeCreateFrameW db a w value gasLimit sd).target = loadedTarget db a w) := by
+  rw [makeCreateFrameW_eq, makeCreateFrameW_eq]
+  have hsame : SameInfo (loadedTarget db a w) (loadedTarget db a .coldFirstTouch) := by
+    obtain ⟨h1, h2, h3⟩ := loadedTarget_sameInfo db a w
+    obtain ⟨g1, g2, g3⟩ := loadedTarget_sameInfo db a .coldFirstTouch
+    exact ⟨h1.trans g1.symm, h2.trans g2.symm, h3.trans g3.symm⟩
+  obtain ⟨hr, hg⟩ := cac_congr _ _ hsame (hsOf db a) value gasLimit sd
+  exact ⟨hr, hg, cac_collision_target _ _ _ _ _⟩
+
+/-- On ANY journal entries `j1`, `j2` for the target holding the same account info — whatever their
+`cold` flags, whatever slots the journal has loaded for them (none, zero-valued ones, the non-zero
+one), whether or not the address is in `warm_preloaded_addresses`, and also against no entry at all
+(`collision_no_entry`) — the decision and the gas lost are the same: only the account's code hash,
+nonce, balance and the database's `has_storage` answer are read. -/
+theorem collision_reads_only_info_and_has_storage (db : Db) (a : Addr) (j1 j2 : JAccount) (p1 p2 : Bool)
+    (value gasLimit : Nat) (sd : Bool) (h : SameInfo j1.target j2.target) :
+    (makeCreateFrameJ db a (some j1) p1 value gasLimit sd).result = (makeCreateFrameJ db a (some j2) p2 value gasLimit sd).result ∧
+    (makeCreateFrameJ db a (some j1) p1 value gasLimit sd).gasLost = (makeCreateFrameJ db a (some j2) p2 value gasLimit sd).gasLost := by
+  rw [makeCreateFrameJ_some, makeCreateFrameJ_some]
+  exact cac_congr _ _ h _ _ _ _
+
+theorem collision_no_entry (db : Db) (a : Addr) (j : JAccount) (p1 p2 : Bool)
+    (value gasLimit : Nat) (sd : Bool) (h : SameInfo j.target (infoTarget db a)) :
+    (makeCreateFrameJ db a (some j) p1 value gasLimit sd).result = (makeCreateFrameJ db a none p2 value gasLimit sd).result ∧
+    (makeCreateFrameJ db a (some j) p1 value gasLimit sd).gasLost = (makeCreateFrameJ db a none p2 value gasLimit sd).gasLost := by
+  rw [makeCreateFrameJ_some, makeCreateFrameJ_none]
+  exact cac_congr _ _ h _ _ _ _
+
+/-- the property for a target that is already warm, under the same hypothesis as
+`create_collision_partial` (the database answers `has_storage` faithfully): code, nonce or
+non-empty storage ⇒ collision, the whole gas passed consumed, target as the journal had it -/
+theorem create_collision_warm_partial (db : Db) (a : Addr) (w : Warmth) (value gasLimit : Nat) (sd : Bool)
+    (hf : HsFaithful db a)
+    (h : (loadedTarget db a w).codeHash ≠ KECCAK_EMPTY ∨ (loadedTarget db a w).nonce ≠ 0 ∨ ∃ k, db.view.storage a k ≠ 0) :
+    (makeCreateFrameW db a w value gasLimit sd).result = .collision ∧
+    (makeCreateFrameW db a w value gasLimit sd).gasLost = some gasLimit ∧
+    (makeCreateFrameW db a w value gasLimit sd).target = loadedTarget db a w := by
+  rw [makeCreateFrameW_eq, ← makeCreateFrame_eq]
+  exact create_collision_partial db a (loadedTarget db a w) value gasLimit sd hf h
 
 /-- collision happens for no other reason: exactly code, nonce, or the database's `has_storage` -/
 theorem collision_iff (t : Target) (hs : Bool) (value gasLimit : Nat) (sd : Bool) :
@@ -89,6 +150,18 @@ example : (makeCreateFrame (.base exBase) 1 exTarget 1 1000 true) = ⟨.collisio
 example : (makeCreateFrame (.wrapRef (.base exBase)) 1 exTarget 1 1000 true).result = .collision := by decide
 example : (makeCreateFrame (.base exBase) 2 ⟨KECCAK_EMPTY, 0, 0, false, false⟩ 1 1000 true).result = .frame := by decide
 
+/-- the storage-only target (slot 7 = 9 in the underlying database) collides however it became warm;
+in particular when the journal loaded NO slot of it (access list without keys, BALANCE, CALL, retry)
+or only a zero-valued one (key 3) -/
+example : ∀ w ∈ [Warmth.coldFirstTouch, .accessList [], .accessList [3], .accessList [7], .accessList [3, 7, 3],
+      .opcodeLoad, .called, .retried, .revertedCold],
+    (makeCreateFrameW (.wrapRef (.base exBase)) 1 w 1 1000 true).result = .collision ∧
+    (makeCreateFrameW (.wrapRef (.base exBase)) 1 w 1 1000 true).gasLost = some 1000 := by decide
+example : ((journalEntry (.base exBase) 1 (.accessList [3, 7])).2.map (·.slots)) = some [(7, 9), (3, 0)] := by decide
+example : (makeCreateFrameW (.base exBase) 2 .opcodeLoad 1 1000 true).result = .frame := by decide
+example : (loadedTarget (.base exBase) 1 .called).touched = true ∧ (loadedTarget (.base exBase) 1 .retried).touched = false := by decide
+example : SameInfo (loadedTarget (.base exBase) 1 .called) (infoTarget (.base exBase) 1) := ⟨rfl, rfl, rfl⟩
+
 /-- the same target behind `CacheDB`, `State`, `State` over `CacheDB` or `DatabaseComponents`:
 the storage is there (slot 7 reads 9 through the layer) but creation proceeds — the account is
 marked created, gets nonce 1 and the value, no gas is taken -/
@@ -115,3 +188,4 @@ theorem create_collision_full_statement_counterexample : ¬ CreateCollisionFullS
   decide
 
 end Revm.Props.C21
+
